@@ -51,7 +51,8 @@ class Live:
         self.dev = sim.device(cfg)
         self.kw = {"noise_psk": base64.b64encode(PSK).decode()} if framing == "noise" else {}
         self.log: list[tuple[int, Any]] = []
-        self.classes = tuple(getattr(pb, m.name) for m in self.proto.by_id.values())
+        # (a message api.proto declares but the compiled module lacks is C13's business, reported there; the session just cannot listen for it)
+        self.classes = tuple(c for c in (getattr(pb, m.name, None) for m in self.proto.by_id.values()) if c is not None)
         self.cli: Any = None
         self.conn: Any = None
         self.view: Any = None
